@@ -194,3 +194,65 @@ def h_real_parsers(k2: int, k3: int, pt: bool) -> bool:
     with NoTracing():
         ok = check_real(FORMATS[fi], kinds, pt)
     return done(ok)
+
+
+# ------------------------------------------------------------------ a name defined twice: the problems of the definition that wins are reported
+RKINDS = ["class", "function", "property", "method", "nested_class"]
+
+
+def redef_source(kind, doc1, doc2):
+    def q(doc, ind):
+        return "'''\n" + "".join((ind + ln if ln else "") + "\n" for ln in doc.replace("\\", "\\\\").split("\n")) + ind + "'''\n"
+    if kind == "class":
+        one = lambda d: "class f:\n    " + q(d, "    ") + "    pass\n"
+        return one(doc1) + one(doc2) if doc1 is not None else one(doc2)
+    if kind == "function":
+        one = lambda d: "def f():\n    " + q(d, "    ") + "    pass\n"
+        return one(doc1) + one(doc2) if doc1 is not None else one(doc2)
+    inner = {"property": lambda d: "    @property\n    def f(self):\n        " + q(d, "        ") + "        return 1\n",
+             "method": lambda d: "    def f(self):\n        " + q(d, "        ") + "        return 1\n",
+             "nested_class": lambda d: "    class f:\n        " + q(d, "        ") + "        pass\n"}[kind]
+    return "class Host:\n" + (inner(doc1) if doc1 is not None else "") + inner(doc2)
+
+
+def reports_of(fmt, src):
+    opts = copy.copy(PJ.OPTS)
+    opts.docformat = fmt
+    s = PJ.build({"m": (src, False)}, opts=opts)
+    for o in list(s.allobjects.values()):
+        epydoc2stan.format_docstring(o)
+        epydoc2stan.format_summary(o)
+    return [re.sub(r"^m:\d+: ", "", m[1]) for m in s.msgs if m[2] < 0]
+
+
+def check_redef(fmt, kind, k1, k2):
+    doc1 = make([k1])
+    doc2 = make([k2]).replace("mark", "sark")        # the second definition's words differ from the first's
+    alone = reports_of(fmt, redef_source(kind, None, doc2))
+    both = reports_of(fmt, redef_source(kind, doc1, doc2))
+    sample(docformat=fmt, kind=kind, first=FRAGMENTS[k1][0], second=FRAGMENTS[k2][0], source=redef_source(kind, doc1, doc2))
+    missing = [r for r in alone if r not in both]
+    if missing:
+        note(why="a problem in the docstring of the definition that wins is not reported when an earlier definition of the same name exists",
+             kind=kind, docformat=fmt, first=FRAGMENTS[k1][0], second=FRAGMENTS[k2][0], not_reported=missing[:3], reported=both[:6], source=redef_source(kind, doc1, doc2))
+        return False
+    return True
+
+
+@harness(
+    parts=lambda: [[f, k] for f in range(4) for k in range(len(RKINDS))], timeout=(300, 1200), cls="E", tracing="concrete-after-choice", twin="first",
+    code=["pydoctor.model.System.handleDuplicate", "System.parse_errors", "pydoctor.epydoc2stan.reportErrors/parse_docstring/extract_fields", "pydoctor.astbuilder (docstrings parsed at build time: classes, properties)"],
+    bounds={"quick": "a class / function / property / method / nested class defined twice in one scope; the first and the second definition's docstring each one of the 26 troublesome fragments; 4 docformats: every problem reported for the second definition alone is also reported when the first definition precedes it", "thorough": "same"},
+    outside="three or more definitions; definitions in different branches of an if",
+)
+def h_redefinition(k1: int, k2: int) -> bool:
+    """
+    pre: 0 <= k1 < NF and 0 <= k2 < NF
+    post: _
+    """
+    fi, ki = PART if PART is not None else [0, 0]
+    k1 = pick(k1, 0, NF - 1)
+    k2 = pick(k2, 0, NF - 1)
+    with NoTracing():
+        ok = check_redef(FORMATS[fi], RKINDS[ki], k1, k2)
+    return done(ok)
